@@ -368,6 +368,13 @@ def run(c, replay):
             fs = finals if len(h) <= 1 else finals[:1] + finals[6:7] + (finals[-1:] if cfg["expect"] else [])
             for f in fs:
                 jobs.append((cfg, h, f))
+        # the print order is the selection order also after items were deselected and others selected later:
+        # select-all (5 items), deselect the first k, then select one of them again / move and select
+        if cfg["multi"] and not cfg["an"] and not cfg["wn"] and not cfg["expect"]:
+            for k in (1, 2, 3):
+                for again in ("first+toggle", "first+up+toggle", "last+toggle+toggle", "first+toggle+up+toggle"):
+                    jobs.append((cfg, ("select-all", "first") + ("toggle+up",) * k + (again,), "accept"))
+            jobs.append((cfg, ("toggle+up", "toggle+up", "toggle+up", "first", "toggle+up", "toggle+up", "up", "toggle"), "accept"))
         # a query that matches nothing: accept prints nothing and exits 1; accept-or-print-query prints the query
         for f in ("accept", "accept-or-print-query", "accept-non-empty", "print-query"):
             jobs.append((dict(cfg, query="zzz"), (), f))
